@@ -227,6 +227,8 @@ def run(res, info):
                 res.count("emitted" if i[0] == "ok" else "refused")
                 if model is not None:
                     m = model.call("rate.emit", fmt, "none" if code is None else code, ka, kb, kc, [magtext(ma), magtext(mb), magtext(mc)], shield_text(fmt, code, sp))
+                    if m[0] == "ok" and m[-1] != "1":
+                        res.violation("correspondence", f"magnitudes {[magtext(ma), magtext(mb), magtext(mc)]} are outside the hypothesis of beautify_bridge", case)
                     if m[0] != i[0] or m[1] != i[1]:
                         res.corr_disagreements += 1
                         res.violation("correspondence", f"{fmt} type {code} ({sp}) a={a!r} b={b!r} c={c!r}: implementation {i} vs model {m}", case)
